@@ -4,31 +4,32 @@ import os
 
 # property -> rules deciding its structural clauses (DESIGN.md section 4)
 PROPS = {
-    'C01': ['DISPATCH', 'ACDUAL', 'FINCHK', 'SYMIDX', 'ORDTOTAL', 'FRAMERESET', 'MERGE', 'CACHELIFE', 'SIBLING', 'ERASER', 'FORWARD', 'KEYFIELDS', 'QUEUEENDS', 'CLIOPT', 'FLAGRESET', 'DRAIN', 'INSETLABEL', 'TUPLEPOS', 'CHECKEDRET'],
-    'C02': ['UNIONCONTRIB', 'PRODUCT', 'WORKLIST', 'COW', 'FORWARD', 'UNIONTRANSL', 'ACCRET', 'SCRATCHRESET', 'NULLPARAM', 'TENTATIVE', 'REINDEXALL', 'ALPHASRC', 'DRAIN', 'STATICSTATE', 'SHAREID'],
-    'C03': ['SIZEEQ', 'WORKLIST', 'DRAIN', 'COW', 'FORWARD', 'COUNTGUARD', 'USEMOVE', 'ACCRET', 'KEPTRULES', 'COLLECTALL', 'ALPHASRC', 'COPYALL'],
-    'C04': ['KIND', 'SIMMAP', 'COPYALL', 'LOOPBOUND', 'TUPLEPOS', 'FORWARD', 'KEYFIELDS', 'CLIOPT', 'INSETLABEL', 'PREPASS', 'USEDSTATES', 'REFSTABLE'],
-    'C05': ['SIMMAP', 'KIND', 'LOOPBOUND', 'DRAIN', 'WORKLIST', 'SIZEEQ', 'COW', 'FORWARD', 'ACCRET', 'INSETLABEL', 'COPYALL', 'USEDSTATES', 'ALPHASRC'],
-    'C06': ['COMPL', 'ACDUAL', 'ALPHASRC', 'ACCRET', 'COLLECTALL', 'WORKLIST', 'SYMIDX', 'SIZEDINDEX', 'FALLOFF', 'COUNTGUARD', 'KEPTRULES', 'DRAIN'],
-    'C07': ['DISPATCH', 'ACDUAL', 'FINCHK', 'MERGE', 'PARALLEL', 'COLLECTALL', 'CACHELIFE', 'SIBLING', 'FORWARD', 'QUEUEENDS', 'CLIOPT', 'SCRATCHRESET', 'GENPRE', 'DRAIN', 'FLAGRESET', 'TUPLEPOS', 'CANON', 'UNIONCONTRIB', 'CHECKEDRET'],
-    'C08': ['UNIONCONTRIB', 'PRODUCT', 'WORKLIST', 'DRAIN', 'INIT', 'COLLECTALL', 'ARITY', 'TUPLEPOS', 'LOADROLE', 'FORWARD', 'USEMOVE', 'UNIONTRANSL', 'ACCRET', 'SCRATCHRESET', 'NULLPARAM', 'REINDEXALL', 'BACKTRACK', 'CANON'],
-    'C09': ['DISPATCH', 'ACDUAL', 'FINCHK', 'MEMO', 'HASHEQ', 'ORDTOTAL', 'FORWARD', 'ADDRKEY', 'QUEUEENDS', 'CLIOPT', 'FLAGRESET', 'DRAIN', 'ITERINVAL', 'CONGRMATCH', 'REFSTABLE', 'OWNKEY', 'CHECKEDRET'],
-    'C10': ['UNIONCONTRIB', 'PRODUCT', 'PAIRFIELD', 'FINCHK', 'WORKLIST', 'DRAIN', 'PARAMPATH', 'COW', 'FORWARD', 'NFAOPS', 'UNIONTRANSL', 'ACCRET', 'SCRATCHRESET', 'COLLECTALL', 'NULLPARAM', 'REINDEXALL', 'ALPHASRC', 'OWNKEY', 'SHAREID', 'MEMBERQ', 'CHECKEDRET'],
+    'C01': ['DISPATCH', 'ACDUAL', 'FINCHK', 'SYMIDX', 'ORDTOTAL', 'FRAMERESET', 'MERGE', 'CACHELIFE', 'SIBLING', 'ERASER', 'FORWARD', 'KEYFIELDS', 'QUEUEENDS', 'CLIOPT', 'FLAGRESET', 'DRAIN', 'INSETLABEL', 'TUPLEPOS', 'CHECKEDRET', 'STATICSTATE'],
+    'C02': ['UNIONCONTRIB', 'PRODUCT', 'WORKLIST', 'COW', 'FORWARD', 'UNIONTRANSL', 'ACCRET', 'SCRATCHRESET', 'NULLPARAM', 'TENTATIVE', 'REINDEXALL', 'ALPHASRC', 'DRAIN', 'STATICSTATE', 'SHAREID', 'QUEUEENDS'],
+    'C03': ['SIZEEQ', 'WORKLIST', 'DRAIN', 'COW', 'FORWARD', 'COUNTGUARD', 'USEMOVE', 'ACCRET', 'KEPTRULES', 'COLLECTALL', 'ALPHASRC', 'COPYALL', 'QUEUEENDS', 'STATICSTATE'],
+    'C04': ['KIND', 'SIMMAP', 'COPYALL', 'LOOPBOUND', 'TUPLEPOS', 'FORWARD', 'KEYFIELDS', 'CLIOPT', 'INSETLABEL', 'PREPASS', 'USEDSTATES', 'REFSTABLE', 'STATICSTATE'],
+    'C05': ['SIMMAP', 'KIND', 'LOOPBOUND', 'DRAIN', 'WORKLIST', 'SIZEEQ', 'COW', 'FORWARD', 'ACCRET', 'INSETLABEL', 'COPYALL', 'USEDSTATES', 'ALPHASRC', 'QUEUEENDS', 'STATICSTATE'],
+    'C06': ['COMPL', 'ACDUAL', 'ALPHASRC', 'ACCRET', 'COLLECTALL', 'WORKLIST', 'SYMIDX', 'SIZEDINDEX', 'FALLOFF', 'COUNTGUARD', 'KEPTRULES', 'DRAIN', 'QUEUEENDS', 'STATICSTATE'],
+    'C07': ['DISPATCH', 'ACDUAL', 'FINCHK', 'MERGE', 'PARALLEL', 'COLLECTALL', 'CACHELIFE', 'SIBLING', 'FORWARD', 'QUEUEENDS', 'CLIOPT', 'SCRATCHRESET', 'GENPRE', 'DRAIN', 'FLAGRESET', 'TUPLEPOS', 'CANON', 'UNIONCONTRIB', 'CHECKEDRET', 'STATICSTATE'],
+    'C08': ['UNIONCONTRIB', 'PRODUCT', 'WORKLIST', 'DRAIN', 'INIT', 'COLLECTALL', 'ARITY', 'TUPLEPOS', 'LOADROLE', 'FORWARD', 'USEMOVE', 'UNIONTRANSL', 'ACCRET', 'SCRATCHRESET', 'NULLPARAM', 'REINDEXALL', 'BACKTRACK', 'CANON', 'QUEUEENDS', 'STATICSTATE'],
+    'C09': ['DISPATCH', 'ACDUAL', 'FINCHK', 'MEMO', 'HASHEQ', 'ORDTOTAL', 'FORWARD', 'ADDRKEY', 'QUEUEENDS', 'CLIOPT', 'FLAGRESET', 'DRAIN', 'ITERINVAL', 'CONGRMATCH', 'REFSTABLE', 'OWNKEY', 'CHECKEDRET', 'STATICSTATE'],
+    'C10': ['UNIONCONTRIB', 'PRODUCT', 'PAIRFIELD', 'FINCHK', 'WORKLIST', 'DRAIN', 'PARAMPATH', 'COW', 'FORWARD', 'NFAOPS', 'UNIONTRANSL', 'ACCRET', 'SCRATCHRESET', 'COLLECTALL', 'NULLPARAM', 'REINDEXALL', 'ALPHASRC', 'OWNKEY', 'SHAREID', 'MEMBERQ', 'CHECKEDRET', 'QUEUEENDS', 'STATICSTATE'],
     'C11': ['COW', 'CLEARALL', 'HASHCONS', 'CACHELIFE', 'ALPHASRC', 'DISPATCH', 'COPYALL', 'STATICSTATE', 'SHAREID'],
     'C13': ['TEXT', 'LOADROLE', 'PARAMPATH', 'PAIRFIELD', 'FORWARD', 'SCRATCHRESET', 'NOTHROW', 'COLLECTALL', 'DRAIN', 'BACKTRACK', 'COPYALL', 'REFCNT', 'STATICSTATE', 'NOREGEX'],
-    'C12': ['COW', 'HASHCONS', 'ITER', 'NONEMPTY', 'CLEARALL', 'PARAMPATH', 'USEDSTATES', 'COPYALL', 'ORDTOTAL', 'CHECKEDRET', 'MEMBERQ'],
-    'C14': ['KIND', 'COW', 'FORWARD', 'SCRATCHRESET', 'HASHCONS', 'REINDEXALL', 'ALPHASRC', 'SIZEEQ'],
-    'C15': ['FINCHK', 'WORKLIST', 'DRAIN', 'KIND', 'HASHCONS', 'COW', 'FORWARD', 'COUNTGUARD', 'ACCRET', 'KEPTRULES', 'COLLECTALL', 'ALPHASRC'],
-    'C16': ['INSETLABEL', 'COPYALL', 'STALESIZE', 'QUEUEENDS', 'DRAIN', 'COLLECTALL', 'LOOPBOUND', 'INIT', 'ITERINVAL'],
-    'C17': ['CANON', 'TEXT', 'BACKTRACK', 'COPYALL', 'REFCNT'],
-    'C18': ['REFCNT', 'CANON', 'COPYALL'],
-    'C19': ['KIND', 'SIMMAP', 'DISPATCH', 'SIBLING', 'ACDUAL', 'ORDTOTAL', 'FRAMERESET', 'HASHEQ', 'MEMO', 'KEYFIELDS', 'ADDRKEY', 'QUEUEENDS', 'CLIOPT', 'FLAGRESET', 'INSETLABEL', 'PREPASS', 'CONGRMATCH', 'USEDSTATES', 'REFSTABLE', 'TUPLEPOS'],
-    'C20': ['INIT', 'FALLOFF', 'PAIRFIELD', 'COPYALL', 'FRAMERESET', 'CACHELIFE', 'LOOPBOUND', 'ERASER', 'STALESIZE', 'ITER', 'NONEMPTY', 'USEMOVE', 'INSETLABEL', 'GENPRE', 'REFCNT', 'NULLPARAM', 'ITERINVAL', 'REFSTABLE', 'SIZEDINDEX', 'CANON', 'CHECKEDRET'],
+    'C12': ['COW', 'HASHCONS', 'ITER', 'NONEMPTY', 'CLEARALL', 'PARAMPATH', 'USEDSTATES', 'COPYALL', 'ORDTOTAL', 'CHECKEDRET', 'MEMBERQ', 'STATICSTATE'],
+    'C14': ['KIND', 'COW', 'FORWARD', 'SCRATCHRESET', 'HASHCONS', 'REINDEXALL', 'ALPHASRC', 'SIZEEQ', 'STATICSTATE'],
+    'C15': ['FINCHK', 'WORKLIST', 'DRAIN', 'KIND', 'HASHCONS', 'COW', 'FORWARD', 'COUNTGUARD', 'ACCRET', 'KEPTRULES', 'COLLECTALL', 'ALPHASRC', 'QUEUEENDS', 'STATICSTATE'],
+    'C16': ['INSETLABEL', 'COPYALL', 'STALESIZE', 'QUEUEENDS', 'DRAIN', 'COLLECTALL', 'LOOPBOUND', 'INIT', 'ITERINVAL', 'STATICSTATE'],
+    'C17': ['CANON', 'TEXT', 'BACKTRACK', 'COPYALL', 'REFCNT', 'STATICSTATE'],
+    'C18': ['REFCNT', 'CANON', 'COPYALL', 'STATICSTATE'],
+    'C19': ['KIND', 'SIMMAP', 'DISPATCH', 'SIBLING', 'ACDUAL', 'ORDTOTAL', 'FRAMERESET', 'HASHEQ', 'MEMO', 'KEYFIELDS', 'ADDRKEY', 'QUEUEENDS', 'CLIOPT', 'FLAGRESET', 'INSETLABEL', 'PREPASS', 'CONGRMATCH', 'USEDSTATES', 'REFSTABLE', 'TUPLEPOS', 'STATICSTATE'],
+    'C20': ['INIT', 'FALLOFF', 'PAIRFIELD', 'COPYALL', 'FRAMERESET', 'CACHELIFE', 'LOOPBOUND', 'ERASER', 'STALESIZE', 'ITER', 'NONEMPTY', 'USEMOVE', 'INSETLABEL', 'GENPRE', 'REFCNT', 'NULLPARAM', 'ITERINVAL', 'REFSTABLE', 'SIZEDINDEX', 'CANON', 'CHECKEDRET', 'STATICSTATE'],
 }
 
 # (property, rule) -> regex on the repo-relative file: only sites in matching files are attributed to that
 # property (rule health — floors, anchors — is always judged on all sites)
 FILTER = {
+    ('C02', 'QUEUEENDS'): r'explicit_tree', ('C03', 'QUEUEENDS'): r'explicit_tree', ('C08', 'QUEUEENDS'): r'bdd_', ('C10', 'QUEUEENDS'): r'explicit_finite', ('C15', 'QUEUEENDS'): r'explicit_tree_candidate|explicit_tree_unreach', ('C05', 'QUEUEENDS'): r'explicit_tree_unreach', ('C06', 'QUEUEENDS'): r'comp_down|explicit_tree_(useless|unreach)',
     ('C12', 'CHECKEDRET'): r'explicit_tree', ('C12', 'MEMBERQ'): r'explicit_tree', ('C10', 'MEMBERQ'): r'explicit_finite', ('C10', 'CHECKEDRET'): r'explicit_finite', ('C09', 'CHECKEDRET'): r'explicit_finite|comparators|macrostate', ('C01', 'CHECKEDRET'): r'explicit_tree_incl|down_tree|tree_incl|antichain', ('C07', 'CHECKEDRET'): r'bdd_|tree_incl|down_tree|antichain',
     ('C02', 'SHAREID'): r'explicit_tree', ('C10', 'SHAREID'): r'explicit_finite', ('C11', 'SHAREID'): r'explicit_',
     ('C07', 'UNIONCONTRIB'): r'bdd_',   # the simulation handed to the BDD inclusion is computed on the union of the operands
